@@ -20,5 +20,6 @@ TECHNIQUE = {
     'C19': 'static shape and tiling analysis: inferred-signature shapes over the return paths of sigFromPy, index-advance = piece-length identity on every branch of the splitter, bracket-matcher counter rules, repeated-test lint, wrapper-table agreement',
     'C11': 'static call conformance over the resolved call graph (incl. typed receivers), binding-role dataflow at the proxy call site, construction-path rule for proxies',
     'C13': 'static decision table: RequestName return codes and queue effects extracted by path enumeration with tests mapped to atoms by data-flow provenance, compared with the specification function on all assignments; cleanup and duplicate-guard path rules',
+    'C14': 'static path rules over the bus handlers: call conformance, counter monotonicity, sender-overwrite and re-marshal ordering, unicast/broadcast decision by destination, rule-id lifecycle dataflow, stub/skeleton signature agreement, deferral lint on the forwarding path',
     'C02': 'static conformance check of the extracted codec model against specification tables; padding function interpreted in the congruence domain mod 8',
 }
